@@ -1,6 +1,7 @@
 // AsyncSim: the simulated world around one KSI_AsyncService (plain or high-availability): endpoints with
 // reference servers, the history model, the op interpreter and the oracles of C13 / C14 / C06 / C15.
 #pragma once
+#include "sim/peek.h"
 #include "eng/sdk.h"
 #include "run/plan.h"
 #include "ref/world.h"
@@ -13,6 +14,7 @@ namespace eng {
 
 struct Attempt {
 	uint64_t id = 0;
+	bool is_conf = false;
 	uint64_t accepted_seq = 0; int64_t accepted_ms = 0;
 	uint64_t sent_seq = 0; int64_t sent_ms = 0;     // request completely handed to the transport
 	uint64_t disp_seq = 0; int64_t disp_ms = 0;     // dispatched by the SDK (TCP: = sent; HTTP: handed to libcurl)
@@ -29,6 +31,7 @@ struct HRec {
 	uint64_t level = 0;
 	uint64_t agg_time = 0, pub_time = 0; bool has_pub = false; // extending
 	std::vector<Attempt> att;
+	bool is_conf = false;      // a configuration request (no hash / times, no request id, no cache slot)
 	bool outstanding = false;  // accepted and not yet returned
 	bool held = false;         // returned to the application, not yet freed / re-added
 	int hold_state = 0;
@@ -137,6 +140,11 @@ private:
 	void emit(SimEndpoint &e, int conn, int xfer, const std::string &bytes);
 
 	size_t outstanding() const;
+	size_t outstanding_slots() const;           // outstanding requests that occupy a cache slot (not configuration requests)
+	size_t conf_extra(const struct ::peek_client &pc) const; // 1 when the configuration slot holds a handle that is not an outstanding request of ours
+	void check_conf_completion(HRec &r, Attempt &a);
+	void send_conf_reply(SimEndpoint &e, SrvReq &rq, int seal_behav, uint64_t subseed);
+	std::vector<HRec *> superseded_conf;        // configuration requests replaced by a later one while outstanding
 	void after_api(const char *what);
 	void monitor_counts(const char *where);
 	void note_sent();
